@@ -216,6 +216,15 @@ class CallMixin:
         self.run.effect("call", f, recv, list(args), node, extra={"kwargs": dict(kwargs), "reason": reason, "dstar": dstar or []})
         ret = getattr(f.node, "returns", None)
         rk = self.kinds_from_annotation(ret, f.mod) if ret is not None else None
+        if rk is None and isinstance(ret, ast.Name) and recv is not None:
+            # `def m(self: T) -> T`: the result has the receiver's class
+            a0 = f.node.args.args[0] if f.node.args.args else None
+            if a0 is not None and isinstance(a0.annotation, ast.Name) and a0.annotation.id == ret.id:
+                if isinstance(recv, SObj):
+                    rk = recv.kinds
+                elif isinstance(recv, SNew) and isinstance(recv.cls, ClassInfo):
+                    k0 = self.U.kind_of_class(recv.cls)
+                    rk = frozenset({k0}) if k0 else None
         descr = (f.qual, _ref(recv), tuple(short(a) for a in args), tuple((k, short(v)) for k, v in sorted(kwargs.items())))
         if rk is not None and rk <= frozenset({"STR", "JSXEXPR"}):
             return SStr([Frag("OP", ("call", f.qual), {"recv": recv, "args": list(args), "kwargs": dict(kwargs)}, ())])
